@@ -66,6 +66,42 @@ def docx_walk_model(ctx, traces):
     ctx.ev.replayed(len(docx))
 
 
+def odt_walk_model(ctx, traces):
+    """Algorithm-shaped model of the ODT body walk (OdtWalk.tla): TLC theorem on the document universe, sensitivity runs
+    for the as-built text-box step and three repaired steps, and binding: the real observation equals the model's output
+    (strict first; with the as-built step of KF-C02-11 while that finding is open)."""
+    from ..tlaval import to_tla
+    from ..tlc import MachineryError, run_tlc_many
+    odt = [t for t in traces if t["hdr"]["fmt"] == "odt" and len(t["hdr"]["doc"]["units"]) == 1]
+    if not odt:
+        return
+    docs_file = ctx.scratch / "odtwalk-docs.json"
+    docs_file.write_text(json.dumps([t["hdr"]["doc"] for t in odt]))
+    cfg = "SPECIFICATION Spec\nCONSTANTS WalkDev = {}\nINVARIANT Inv_WalkOK\n"
+    wdevs = ("Odt!TextboxParagraphsGlued", "Odt!HeadingInListLost", "Odt!NestedRepeated", "Odt!TrackedDeletionLeaks")
+    res = run_tlc_many([("OdtWalkCheck", cfg, dict(scratch=ctx.scratch, env={"DOCS_FILE": str(docs_file)}, expect_fail=True, workers=4))]
+                       + [("OdtWalkCheck", cfg.replace("WalkDev = {}", f'WalkDev = {{"{dv}"}}'),
+                           dict(scratch=ctx.scratch, env={"DOCS_FILE": str(docs_file)}, expect_fail=True, workers=3)) for dv in wdevs])
+    r = res[0]
+    ctx.ev.tlc("OdtWalkCheck: modelled ODT walk satisfies Fidelity on every enumerated document", r)
+    if r.violated:
+        ctx.v.violation(what="OdtWalk.tla: the modelled ODT walk violates Fidelity on the specification "
+                             "(model and Doc.tla disagree)", observed=r.output[-1500:])
+    for dv, rs in zip(wdevs, res[1:]):
+        ctx.ev.tlc(f"OdtWalkCheck sensitivity: step {dv} must violate Fidelity", rs, note="expected violation")
+        if not rs.violated:
+            raise MachineryError(f"sensitivity run for {dv} did not fail")
+
+    def cfgfn(dev):
+        return f"SPECIFICATION TraceSpec\nCONSTANTS WalkDev = {to_tla(set(dev))}\nCONSTRAINT TraceAccept\n"
+    validate_with_findings(ctx, "OdtWalkTrace", odt, {"KF-C02-11": "Odt!TextboxParagraphsGlued"},
+                           lambda t, e: ("read_odt().get_full_text() differs from the algorithm model OdtWalk.tla: observed tokens "
+                                         f"{e.get('obs')} sep {e.get('sep')}; body {json.dumps(t['hdr']['doc']['units'][0]['blocks'])[:300]}"),
+                           lambda t: "odt_extractor.py:_extract_full_text/_append_full_text_from_element; _shared.py:element_text",
+                           cfg=cfgfn)
+    ctx.ev.replayed(len(odt))
+
+
 # ----------------------------------------------------------------------------- RTF body stripper: token-level model
 _RTF_TOKEN = {"SP": " ", "LF": "\n", "CR": "\r", "PAR": "\\par", "LINE": "\\line", "TAB": "\\tab", "PAGE": "\\page",
               "SBK": "\\sbkpage", "CW": "\\b", "CWN": "\\fs24", "CWNEG": "\\li-120", "HEX": "\\'e9", "UNI": "\\u233?",
@@ -315,6 +351,7 @@ def run(ctx):
                            lambda t: f"{t['hdr']['fmt']} extractor text walk")
     ev.replayed(len(traces))
     docx_walk_model(ctx, traces)
+    odt_walk_model(ctx, traces)
     rtf_strip_model(ctx)
     ppt_clean_model(ctx)
     ev.set(rule="document shapes enumerated by TLC (DocGen: all 1-block flow documents, 2-block documents "
